@@ -3,7 +3,7 @@
 package stack
 
 // C19: source-based argument augmentation. A generated Go program (all parameter
-// lists of length 1..2, thorough 3, over 20 kinds, as functions and as
+// lists of length 1..2, thorough 3, over 21 kinds, as functions and as
 // pointer-receiver methods, boundary values) is built with -gcflags '-N -l' by the
 // installed toolchain, crashed with every case parked in its callee, and its real
 // traceback is parsed against the sources; then against mismatching source trees.
